@@ -55,6 +55,13 @@ where
         self.validate_commit_authorization(mls_group, &staged_commit, commit_sender)?;
         self.validate_commit_identities(mls_group, &staged_commit, commit_sender)?;
 
+        // Validate-then-apply: the group data this commit installs must decode *before* the commit
+        // is merged. After the merge a malformed extension can only make the metadata sync fail,
+        // and the event would be reported as failed although the MLS epoch already advanced.
+        crate::extension::NostrGroupDataExtension::from_group_context(
+            staged_commit.group_context(),
+        )?;
+
         let group_id: GroupId = mls_group.group_id().into();
 
         // Snapshot current state before applying commit (for rollback support).
